@@ -15,11 +15,11 @@ def build():
 def run(tier, deadline):
     t0 = time.time(); build()
     env = dict(os.environ, CAT_LIB=vbuild.build("prod"))
-    N = 6 if tier == "quick" else 8
+    N = 6 if tier == "quick" else 11
     jobs = []
     for kind in ("str", "wcs"):
         for sh in range(8): jobs.append([kind, str(N), "0", str(sh), "8"])
-        for sh in range(8): jobs.append([kind, str(4 if tier == "quick" else 6), "1", str(sh), "8"])
+        for sh in range(8): jobs.append([kind, str(4 if tier == "quick" else 7), "1", str(sh), "8"])
     viol = {}; internal = []; tot = {"histories": 0, "calls": 0, "states": 0, "transitions": 0}; timed_out = []
     def one(j):
         left = deadline - (time.time() - t0)
